@@ -85,6 +85,8 @@ class Tr:
         if d is not None:
             if d in self.rename:
                 return self.rename[d]
+            if isinstance(n, ast.Attribute) and n.attr in self.spec.get("attrs", {}) and not d.startswith("self."):
+                return f"{self.raw(n.value)}.{self.spec['attrs'][n.attr]}"
             if d.startswith("self.") and self.state:
                 return f"{self.state}.{d[5:].replace('.', '_')}"
             if isinstance(n, ast.Name):
@@ -147,6 +149,8 @@ class Tr:
                 return f"({self.e(b)}).contains '{a.value}'"
             if isinstance(op, (ast.Is, ast.IsNot)) and isinstance(b, ast.Constant) and b.value is None:
                 return f"({self.e(a)}).{'isNone' if isinstance(op, ast.Is) else 'isSome'}"
+            if isinstance(op, ast.NotIn):
+                return f"(!({self.e(b)}).contains {self.e(a)})"
             if isinstance(op, ast.In):
                 return f"({self.e(b)}).contains {self.e(a)}"
             sym = {ast.GtE: "≥", ast.Gt: ">", ast.LtE: "≤", ast.Lt: "<", ast.Eq: "==", ast.NotEq: "!="}.get(type(op))
@@ -167,9 +171,9 @@ class Tr:
                 return f"({self.e(n.args[0])}).isPrefixOf {self.e(f.value)}"
             if isinstance(f, ast.Attribute) and f.attr == "endswith" and len(n.args) == 1:
                 return f"({self.e(n.args[0])}).isSuffixOf {self.e(f.value)}"
-            if isinstance(f, ast.Name) and f.id in self.spec.get("funcs", {}):
+            if self.dotted(f) in self.spec.get("funcs", {}):
                 args = n.args[0].elts if len(n.args) == 1 and isinstance(n.args[0], ast.Tuple) else n.args
-                return "(" + self.spec["funcs"][f.id] + " " + " ".join(self.e(a) for a in args) + ")"
+                return "(" + self.spec["funcs"][self.dotted(f)] + " " + " ".join(self.e(a) for a in args) + ")"
             if isinstance(f, ast.Name) and f.id in self.spec.get("ctors", {}) and not n.args:
                 lean, fields, fixed = self.spec["ctors"][f.id]
                 kws = {k.arg: k.value for k in n.keywords}
@@ -187,6 +191,8 @@ class Tr:
             return f"(({self.e(n.value)}).getLast?.getD [])"
         if isinstance(n, ast.List) and not n.elts:
             return "[]"
+        if isinstance(n, ast.List):
+            return "[" + ", ".join(self.e(x) for x in n.elts) + "]"
         if isinstance(n, ast.Tuple):
             return "(" + ", ".join(self.e(x) for x in n.elts) + ")"
         raise Unsupported(f"expression {src}")
@@ -202,6 +208,18 @@ class Tr:
 
     # ---- statements --------------------------------------------------------------------------
     def ret(self, n) -> str:
+        if self.spec.get("ret_opt"):
+            return "none" if n is None or (isinstance(n, ast.Constant) and n.value is None) else f"some {self.e(n)}"
+        rt = self.spec.get("ret_types")
+        if rt and isinstance(n, ast.Tuple) and len(n.elts) == len(rt):
+            parts = []
+            for x, t in zip(n.elts, rt):
+                if t.startswith("opt") and not (isinstance(x, ast.Constant) and x.value is None) and not self.typ(x).startswith("opt"):
+                    parts.append(f"some {self.e(x)}")
+                else:
+                    parts.append(self.e(x))
+            v = "(" + ", ".join(parts) + ")"
+            return f".ok {v}" if self.spec.get("mode") == "except" else v
         v = self.e(n) if n is not None else "()"
         if self.spec.get("mode") == "except":
             return f".ok {v}"
@@ -287,6 +305,10 @@ class Tr:
             # early-return search loop
             if len(b) == 1 and isinstance(b[0], ast.If) and not b[0].orelse and len(b[0].body) == 1 and isinstance(b[0].body[0], ast.Return):
                 c = self.e(b[0].test)
+                rv = b[0].body[0].value
+                if rv is not None and any(isinstance(x, ast.Name) and x.id == v for x in ast.walk(rv)):
+                    return (f"{ind}match ({self.e(s.iter)}).find? (fun {v} => {c}) with\n{ind}| some {v} => {self.ret(rv)}\n{ind}| none =>\n"
+                            + self.block(rest, ind + "  "))
                 return f"{ind}if ({self.e(s.iter)}).any (fun {v} => {c}) then\n{ind}  {self.ret(b[0].body[0].value)}\n{ind}else\n{self.block(rest, ind + '  ')}"
             # first-reject loop over awaited components: the component results are the list elements
             if (len(b) == 2 and isinstance(b[0], ast.Assign) and isinstance(b[0].targets[0], ast.Tuple) and isinstance(b[0].value, ast.Await)
@@ -301,6 +323,12 @@ class Tr:
             if acc is not None:
                 body = self.accbody(list(b), acc, ind + "    ")
                 return (f"{ind}let {acc} := ({self.e(s.iter)}).foldl (fun {acc} {v} =>\n{body}) {acc}\n" + self.block(rest, ind))
+            # first-result loop: the body returns for some element or moves on (`continue` / falls off the end)
+            if not any(isinstance(x, (ast.Break, ast.For, ast.While, ast.Await, ast.AugAssign)) for st in b for x in ast.walk(st)):
+                saved = (dict(self.rename), dict(self.types))
+                body = self.optblock(list(b), ind + "    ")
+                self.rename, self.types = saved
+                return (f"{ind}match ({self.e(s.iter)}).findSome? (fun {v} =>\n{body}) with\n{ind}| some r => r\n{ind}| none =>\n" + self.block(rest, ind + "  "))
             raise Unsupported("for loop shape")
         if isinstance(s, ast.Try) and len(s.body) == 1 and isinstance(s.body[0], ast.Assign) and len(s.handlers) == 1 and not s.orelse and not s.finalbody:
             call = ast.unparse(s.body[0].value)
@@ -312,6 +340,65 @@ class Tr:
                 raise Unsupported("except body")
             return f"{ind}match {self.opaque[call]} with\n{ind}| none => {self.ret(h[0].value)}\n{ind}| some {x} =>\n" + self.block(rest, ind + "  ")
         raise Unsupported(f"statement {type(s).__name__}: {ast.unparse(s)[:50]}")
+
+    def _none_test(self, t):
+        """(dotted name, is_none?) for `x is None` / `x is not None` on a name declared Optional"""
+        if (isinstance(t, ast.Compare) and len(t.ops) == 1 and isinstance(t.ops[0], (ast.Is, ast.IsNot)) and isinstance(t.comparators[0], ast.Constant)
+                and t.comparators[0].value is None):
+            d = self.dotted(t.left)
+            if d is not None and self.typ(t.left).startswith("opt"):
+                return (d, t.left), isinstance(t.ops[0], ast.Is)
+        return None
+
+    def _narrow(self, dn):
+        """inside the `some` branch the name stands for the value"""
+        d, node = dn
+        fresh = d.replace(".", "_").replace("self_", "") + "'"
+        lean_old = self.raw(node)
+        self.rename[d] = fresh
+        self.types[d] = self.types.get(d, "opt")[3:] or "obj"
+        return lean_old, fresh
+
+    def optblock(self, stmts, ind) -> str:
+        """a loop body as an expression of type Option result: `return e` is `some e`, moving on to the next element is `none`"""
+        if not stmts:
+            return ind + "none"
+        s, rest = stmts[0], stmts[1:]
+        if isinstance(s, ast.Continue):
+            return ind + "none"
+        if isinstance(s, ast.Return):
+            return f"{ind}some {self.ret(s.value)}"
+        if isinstance(s, ast.Expr) and isinstance(s.value, ast.Constant):
+            return self.optblock(rest, ind)
+        if isinstance(s, ast.Assign) and len(s.targets) == 1 and isinstance(s.targets[0], ast.Name):
+            x = s.targets[0].id
+            self.types.setdefault(x, self.typ(s.value))
+            return f"{ind}let {x} := {self.e(s.value)}\n" + self.optblock(rest, ind)
+        if isinstance(s, ast.If):
+            def ends(b):
+                return bool(b) and isinstance(b[-1], (ast.Return, ast.Continue))
+            nt = self._none_test(s.test)
+            saved = (dict(self.rename), dict(self.types))
+            if nt is not None and not s.orelse:
+                d, is_none = nt
+                if is_none and ends(s.body):
+                    # `if x is None: <leave>` … rest sees the value
+                    none_branch = self.optblock(list(s.body), ind + "  ")
+                    old, fresh = self._narrow(d)
+                    some_branch = self.optblock(rest, ind + "  ")
+                    self.rename, self.types = saved
+                    return f"{ind}match {old} with\n{ind}| none =>\n{none_branch}\n{ind}| some {fresh} =>\n{some_branch}"
+                if not is_none:
+                    # `if x is not None: body` then rest (rest does not see the narrowing)
+                    none_branch = self.optblock(rest, ind + "  ")
+                    old, fresh = self._narrow(d)
+                    some_branch = self.optblock(list(s.body) + ([] if ends(s.body) else rest), ind + "  ")
+                    self.rename, self.types = saved
+                    return f"{ind}match {old} with\n{ind}| none =>\n{none_branch}\n{ind}| some {fresh} =>\n{some_branch}"
+            then = list(s.body) + ([] if ends(s.body) else rest)
+            orelse = list(s.orelse) + ([] if ends(s.orelse) else rest)
+            return f"{ind}if {self.cond(s.test)} then\n{self.optblock(then, ind + '  ')}\n{ind}else\n{self.optblock(orelse, ind + '  ')}"
+        raise Unsupported(f"loop body statement {ast.unparse(s)[:40]}")
 
     def _acc_name(self, body):
         names = set()
@@ -367,6 +454,19 @@ SPECS = [
          header="def canonicalPath (decoded : List Nat) (parts : List (List Nat)) : List Nat :=",
          opaque={"unquote(path)": "decoded", "decoded.split('/')": "parts"},
          types={"decoded": "str", "parts": "list", "segments": "list", "part": "str", "canonical": "str"}),
+    dict(name="findRule", file="server/middleware.py", cls="CertificateAuth", func="_find_matching_rule", str="nat",
+         header="def findRule (rules : List Mw.Cert.Rule) (path : List Nat) : Option Mw.Cert.Rule :=",
+         rename={"self.config.path_rules": "rules"}, attrs={"prefix": "pre"}, ret_opt=True,
+         types={"self.config.path_rules": "list", "path": "str", "rule.prefix": "str"}),
+    dict(name="certProcess", file="server/middleware.py", cls="CertificateAuth", func="process_request", str="nat",
+         header=("def certProcess (find : List Nat → Option Mw.Cert.Rule) (path0 : List Nat) (client_cert_fingerprint : Option Mw.Cert.Fp) :\n"
+                 "    Bool × Option (List Nat) :="),
+         opaque={"self._extract_path(request_url)": "path0"},
+         funcs={"self._find_matching_rule": "find"},
+         attrs={"require_cert": "requireCert", "allowed_fingerprints": "allowed"},
+         ret_types=["bool", "optstr"],
+         types={"path": "str", "candidates": "list", "candidate": "str", "rule": "optobj", "self._find_matching_rule(candidate)": "optobj",
+                "client_cert_fingerprint": "optfp", "rule.allowed_fingerprints": "optlist", "rule.require_cert": "bool"}),
     dict(name="parseUrl", file="utils/url.py", cls=None, func="parse_url", mode="except", numfmt="Url.natToStr",
          header=("def parseUrl (url scheme : Url.Str) (hostname username password : Option Url.Str) (fragment : Url.Str) (splitR : Except Url.Err Unit)\n"
                  "    (portR : Except Url.Err (Option Nat)) (path netloc query : Url.Str) : Except Url.Err Url.Parsed :="),
@@ -409,6 +509,8 @@ PRELUDE = {
     "upstreamUrl": ([], []),
     "canonicalPath": ([], []),
     "parseUrl": (["NauyacaVerif.Url.Basic", "NauyacaVerif.Gen.Params"], []),
+    "findRule": (["NauyacaVerif.Mw.Cert"], []),
+    "certProcess": (["NauyacaVerif.Mw.Cert"], []),
 }
 
 
